@@ -225,6 +225,12 @@ func parseConfig(path string) error {
 	if config.Policy == nil {
 		config.Policy = &ccpb.Policy{HeaderPolicy: &ccpb.HeaderPolicy{}, TdQuoteBodyPolicy: &ccpb.TDQuoteBodyPolicy{}}
 	}
+	if config.Policy.HeaderPolicy == nil {
+		config.Policy.HeaderPolicy = &ccpb.HeaderPolicy{}
+	}
+	if config.Policy.TdQuoteBodyPolicy == nil {
+		config.Policy.TdQuoteBodyPolicy = &ccpb.TDQuoteBodyPolicy{}
+	}
 	return nil
 }
 
